@@ -38,8 +38,18 @@ DATA = [
 ONT = [(EX.Person, RDFS.subClassOf, EX.Agent), (EX.knows, RDFS.domain, EX.Person), (EX.Agent, RDF.type, OWL.Class)]
 
 
+RULES_ONLY = {
+    "triple": """;
+  sh:rule [ a sh:TripleRule ; sh:subject sh:this ; sh:predicate ex:inferred ; sh:object ex:Marked ]""",
+    "sparql": """;
+  sh:rule [ a sh:SPARQLRule ; sh:construct "CONSTRUCT { $this <http://ex.org/also> <http://ex.org/Constructed> } WHERE { $this a <http://ex.org/Person> }" ]""",
+}
+
+
 def shapes_graph(functions, rules):
-    return rdflib.Graph().parse(data=SHAPES_TTL % {"rules": RULES if rules else "", "functions": FUNCTIONS if functions else ""}, format="turtle")
+    """rules: False | True (a triple rule and a SPARQL rule) | "triple" | "sparql" (only that kind of writer)"""
+    rtext = RULES_ONLY[rules] if rules in RULES_ONLY else (RULES if rules else "")
+    return rdflib.Graph().parse(data=SHAPES_TTL % {"rules": rtext, "functions": FUNCTIONS if functions else ""}, format="turtle")
 
 
 def make_data(kind, split=0):
@@ -274,7 +284,7 @@ def main(tier, seed, replay=None):
         if api == "shacl_rules" and not adv:
             continue
         data, ont = make_data(cont, split=runs), make_ont(ontk)
-        sg = shapes_graph(True, True)
+        sg = shapes_graph(runs % 2 == 0, [True, "sparql", "triple", True][runs % 4])
         before = (snapshot(data), snapshot(ont))
         module, cls = (VM, VM.Validator) if api == "validate" else (RM, RM.RuleExpandRunner)
         with Recorder(module, cls, data, ont, fault):
@@ -307,7 +317,7 @@ def main(tier, seed, replay=None):
     cov = F.proof_coverage(ob, ["translator/t1.py + translator/py2mini.py (fail-closed Python-ast -> PyMini)", "coq/Mini/PyMini.v semantics and callee summaries (clone_graph, inoculate, inoculate_dataset, _run_pre_inference, apply_rules, apply_functions)"])
     cov.update({
         "evaluations": len(bodies) + runs, "distinct_nontrivial": len({tuple(m[3]) for m in meta if m[3]}) + runs,
-        "rule": "(1) Tie A: for sampled valuations of the 1280-element domain x {validate, shacl_rules} x {no fault, fault at effect 0-3} the real Validator/RuleExpandRunner runs with recording wrappers around the white-listed callees and the recorded Clone/Write/Reg/Raised trace must equal the trace of the generated PyMini program; (2) the property on the real code: {Graph, Dataset, ConjunctiveGraph} x {no ontology, Graph, Dataset, empty Graph, empty Dataset} x {none, rdfs, owlrl, both} x advanced x iterate_rules x {validate, shacl_rules} x {normal return, failure injected after the k-th effect}, quad-level snapshot of the caller's objects before/after; non-trivial = a run in which a writer ran",
+        "rule": "(1) Tie A: for sampled valuations of the 1280-element domain x {validate, shacl_rules} x {no fault, fault at effect 0-3} the real Validator/RuleExpandRunner runs with recording wrappers around the white-listed callees and the recorded Clone/Write/Reg/Raised trace must equal the trace of the generated PyMini program; (2) the property on the real code: {Graph, Dataset, ConjunctiveGraph} x {no ontology, Graph, Dataset, empty Graph, empty Dataset} x {none, rdfs, owlrl, both} x advanced x iterate_rules x {validate, shacl_rules} x {normal return, failure injected after the k-th effect} x rule sets {triple + SPARQL rule, only SPARQL rules, only triple rules}, quad-level snapshot of the caller's objects before/after; non-trivial = a run in which a writer ran",
         "distribution": {"tie_a_traces": len(bodies), "tie_a_disagreements": len(failed), "snapshot_runs": runs, "snapshot_violations": len(snap_viol),
                          "distinct_traces": len({tuple(m[3]) for m in meta})},
         "samples": [{"api": m[0], "valuation": m[1], "fault": m[2], "recorded": m[3]} for m in meta[:3]],
